@@ -229,11 +229,6 @@ func (p *parser) finishParsingBodyAttribute(ident Token, singleLine bool) (Node,
         // landed somewhere weird. We'll try to reset to the start of a body
         // item so parsing can continue.
         endRange = p.PrevRange()
-        if exprRange := expr.Range(); exprRange.End.Byte > endRange.End.Byte {
-            // the placeholder for an invalid expression sits on the token that could
-            // not be parsed, which has not been consumed
-            endRange = exprRange
-        }
         p.recoverAfterBodyItem()
     } else {
         endRange = p.PrevRange()
@@ -264,6 +259,12 @@ func (p *parser) finishParsingBodyAttribute(ident Token, singleLine bool) (Node,
                 p.Read() // eat newline
             }
         }
+    }
+
+    if exprRange := expr.Range(); exprRange.End.Byte > endRange.End.Byte {
+        // the placeholder for an invalid expression sits on the token that could
+        // not be parsed, which has not been consumed
+        endRange = exprRange
     }
 
     return &Attribute{
